@@ -53,7 +53,7 @@ package goatlang
 //@   inline
 
 //@ func (Value).opAdd
-//@   property C04
+//@   property C04 C02
 //@   intmode bv
 //@   pure
 //@   requires valid(v) && valid(b)
@@ -78,7 +78,7 @@ package goatlang
 //@   ensures#cc v.t == untypedInt && b.t == untypedInt ==> result.t == untypedInt
 //@
 //@ func (Value).opSub
-//@   property C04
+//@   property C04 C02
 //@   intmode bv
 //@   pure
 //@   requires valid(v) && valid(b)
@@ -102,7 +102,7 @@ package goatlang
 //@   ensures#cc v.t == untypedInt && b.t == untypedInt ==> result.t == untypedInt
 //@
 //@ func (Value).opMul
-//@   property C04
+//@   property C04 C02
 //@   intmode bv
 //@   pure
 //@   requires valid(v) && valid(b)
@@ -125,7 +125,7 @@ package goatlang
 //@   ensures#cc v.t == untypedInt && b.t == untypedInt ==> result.t == untypedInt
 //@
 //@ func (Value).opDiv
-//@   property C04
+//@   property C04 C02
 //@   intmode bv
 //@   pure
 //@   requires valid(v) && valid(b)
@@ -148,7 +148,7 @@ package goatlang
 //@   ensures#cc v.t == untypedInt && b.t == untypedInt ==> result.t == untypedInt
 //@
 //@ func (Value).opMod
-//@   property C04
+//@   property C04 C02
 //@   intmode bv
 //@   pure
 //@   requires valid(v) && valid(b)
@@ -894,7 +894,7 @@ package goatlang
 //@   ensures#next stays(v)
 //@
 //@ func (*VM).exec case codeLocalZero
-//@   property C07
+//@   property C07 C08
 //@   requires localOK(v, ins(v).A)
 //@   nopanic
 //@   ensures#delta len(v.stack) == old(len(v.stack))
@@ -1483,7 +1483,11 @@ package goatlang
 //@   requires -32768 <= a && a <= 32767 && -32768 <= b && b <= 32767
 //@   ensures fst(splitParams(joinParams(a, b))) == a && snd(splitParams(joinParams(a, b))) == b
 //@ func sameLine
-//@   inline
+//@   property C20 C02
+//@   intmode bv
+//@   pure
+//@   nopanic
+//@   ensures#def result == ((a >> 16) == (b >> 16))
 
 // ---------------------------------------------------------------------------------------------
 // Layer P / C05: the Pratt loop. The symbol table itself is extracted from init() and checked
@@ -1502,7 +1506,7 @@ package goatlang
 //@   modifies *
 //@
 //@ func (*parser).Next
-//@   property C05
+//@   property C05 C03
 //@   modifies fields(p)
 //@   panics_iff p.N < 0 || p.N >= len(p.Tokens)
 //@   ensures p.Token == old(p.Tokens[p.N]) && result == p.Token && p.N == old(p.N) + 1 && p.Tokens == old(p.Tokens) && p.mask == old(p.mask) && p.Depth == old(p.Depth)
@@ -1840,7 +1844,7 @@ package goatlang
 //@   ensures#alias aliases(as(result.value, *sliceT).data, s.data, i) && len(as(result.value, *sliceT).data) == j - i && cap(as(result.value, *sliceT).data) == cap(s.data) - i
 //@
 //@ func (*sliceT).Append
-//@   property C11
+//@   property C11 C04
 //@   requires s != nil
 //@   requires forall j int :: 0 <= j && j < len(items) ==> valid(items[j])
 //@   requires forall j int :: 0 <= j && j < len(s.data) ==> valid(s.data[j])
@@ -2119,7 +2123,7 @@ package goatlang
 //@   invariant forall j int :: 0 <= j && j < old(len(c.scope)) ==> c.scope[j] == old(c.scope[j])
 
 //@ func (*compiler).compile case "return"
-//@   property C09 C07 C06
+//@   property C09 C07 C06 C19
 //@   axioms TOKARR
 //@   requires wfC(c) && tok != nil && len(c.Returns) >= 1 && tokArr(arr(tok.Tokens)) && (forall j int :: 0 <= j && j < len(tok.Tokens) ==> tok.Tokens[j] != nil)
 //@   ensures#wf wfC(c) && keepsC(c)
